@@ -15,15 +15,16 @@ import (
 
 // Ctx is the evaluation context of one expression.
 type Ctx struct {
-	x     *Exec
-	st    *State
-	fr    *Frame
-	spec  bool             // spec mode: no obligations, mathematical integers
-	old   *State           // state denoted by old(...)
-	vars  map[string]Value // spec variables: params, result, bound variables
-	guard *Term            // extra guard for obligations (short-circuit)
-	info  *types.Info
-	pkg   *PkgInfo
+	x        *Exec
+	st       *State
+	fr       *Frame
+	spec     bool             // spec mode: no obligations, mathematical integers
+	old      *State           // state denoted by old(...)
+	vars     map[string]Value // spec variables: params, result, bound variables
+	guard    *Term            // extra guard for obligations (short-circuit)
+	info     *types.Info
+	pkg      *PkgInfo
+	assuming bool // the clause being evaluated is assumed (callee contract at a call site), not proved
 }
 
 func (c *Ctx) withState(st *State) *Ctx { n := *c; n.st = st; return &n }
@@ -168,6 +169,19 @@ func (c *Ctx) eval(e ast.Expr) Value {
 		v := c.eval(e.X)
 		if v.Kind == KPtr {
 			return v
+		}
+		pT := v.T
+		if pT == nil && c.info != nil {
+			pT = c.typeOf(e.X)
+		}
+		if pT == nil {
+			panic(engineErr("%s: dereference of a value without Go type", x.pos(e.Pos())))
+		}
+		if pt, ok := types.Unalias(pT).Underlying().(*types.Pointer); ok && v.Kind == KScalar && v.S.Sort == SRef && x.isBoxed(pt.Elem()) {
+			if !c.spec {
+				c.oblige("nil", exprText(e.X), Neq(v.S, Nil), e.Pos())
+			}
+			return c.loadPointee(v.S, pt.Elem())
 		}
 		panic(engineErr("%s: pointer dereference *%s not supported", x.pos(e.Pos()), exprText(e.X)))
 	case *ast.UnaryExpr:
@@ -358,6 +372,14 @@ func (c *Ctx) fieldStep(cur Value, f *types.Var, ownerName string) Value {
 		if cur.S.Sort != SRef {
 			panic(engineErr("field %s of non-reference value", f.Name()))
 		}
+		if strings.HasPrefix(cur.Path, "H:") {
+			// interior pointer: cur.S is the enclosing object, cur.Path the by-value struct field it points into
+			h := x.load(c.st, cur.Path, pointee(cur.T))
+			v := h.Fields[f.Name()].mapTerms(func(t *Term) *Term { return Select(t, cur.S) })
+			v.T = f.Type()
+			x.valueFacts(v)
+			return v
+		}
 		if ownerName == "" {
 			ownerName = typeName(cur.T)
 		}
@@ -455,6 +477,21 @@ func (c *Ctx) evalSelector(e *ast.SelectorExpr) Value {
 			return Scalar(Var("func."+o.FullName(), SRef), o.Type())
 		}
 		panic(engineErr("%s: selector %s not supported", x.pos(e.Pos()), exprText(e)))
+	}
+	// spec mode: a constant of an imported package
+	if id, ok := e.X.(*ast.Ident); ok {
+		if _, isVar := c.vars[id.Name]; !isVar {
+			for _, imp := range c.pkg.P.Types.Imports() {
+				if imp.Name() == id.Name {
+					if cn, ok := imp.Scope().Lookup(e.Sel.Name).(*types.Const); ok {
+						if v, ok := constToValue(cn.Val(), cn.Type()); ok {
+							return v
+						}
+					}
+					panic(engineErr("spec: %s is not a constant", exprText(e)))
+				}
+			}
+		}
 	}
 	// spec mode: derive from the value's type
 	base := c.eval(e.X)
@@ -556,6 +593,18 @@ func (c *Ctx) evalUnary(e *ast.UnaryExpr) Value {
 			sv := c.evalCompositeLit(cl)
 			return c.alloc(sv, c.typeOf(e))
 		}
+		if id, ok := unparen(e.X).(*ast.Ident); ok && !c.spec {
+			if obj, _ := c.info.ObjectOf(id).(*types.Var); obj != nil && x.isBoxed(obj.Type()) {
+				if _, local := c.fr.keyOf(obj); local {
+					// &local: a fresh box holding the current value; the variable must not be written afterwards
+					if c.fr.addrTaken == nil {
+						c.fr.addrTaken = map[*types.Var]bool{}
+					}
+					c.fr.addrTaken[obj] = true
+					return c.allocBox(obj.Type(), c.eval(id), c.typeOf(e))
+				}
+			}
+		}
 		v := c.eval(e.X)
 		if v.Kind == KPtr {
 			return v
@@ -572,22 +621,55 @@ func (c *Ctx) alloc(sv Value, ptrT types.Type) Value {
 	x := c.x
 	r := Fresh("new", SRef)
 	x.addFact(r, Neq(r, Nil))
+	x.freshRefs = append(x.freshRefs, r)
+	c.freshFromAll(r)
 	if sv.Kind == KStruct {
-		owner := typeName(sv.T)
-		_, s, _ := x.isRepoStruct(sv.T)
-		for i := 0; i < s.NumFields(); i++ {
-			f := s.Field(i)
-			key := "H:" + owner + "." + f.Name()
-			h := x.load(c.st, key, f.Type())
-			nv := zip2(h, liftLike(h, sv.Fields[f.Name()]), func(arr, val *Term) *Term { return Store(arr, r, val) })
-			nv.T = f.Type()
-			x.storeTo(c.st, key, nv)
-		}
+		c.storeObject(r, sv)
 	}
 	return Scalar(r, ptrT)
 }
 
 func liftLike(h, v Value) Value { v.T = h.T; return v }
+
+// boxElem: struct values stored in a slice are kept as references to a copy of the value.
+func (c *Ctx) boxElem(v Value, et types.Type) Value {
+	if v.Kind == KStruct && et != nil {
+		return c.alloc(v, et)
+	}
+	return v
+}
+
+func pointee(T types.Type) types.Type {
+	if p, ok := types.Unalias(T).Underlying().(*types.Pointer); ok {
+		return p.Elem()
+	}
+	return T
+}
+
+// interiorPtr: &q.f where q is a heap object and f a by-value struct field of it.
+func (c *Ctx) interiorPtr(e ast.Expr) (Value, bool) {
+	se, ok := unparen(e).(*ast.SelectorExpr)
+	if !ok || c.info == nil {
+		return Value{}, false
+	}
+	sel, ok := c.info.Selections[se]
+	if !ok || sel.Kind() != types.FieldVal {
+		return Value{}, false
+	}
+	base := c.eval(se.X)
+	idx := sel.Index()
+	cont, contT := c.walkPath(base, sel.Recv(), idx[:len(idx)-1])
+	contT = pointee(contT)
+	if cont.Kind != KScalar || cont.S.Sort != SRef || cont.Path != "" {
+		return Value{}, false
+	}
+	st, ok := types.Unalias(contT).Underlying().(*types.Struct)
+	if !ok {
+		return Value{}, false
+	}
+	f := st.Field(idx[len(idx)-1])
+	return Value{Kind: KScalar, S: cont.S, T: types.NewPointer(f.Type()), Path: "H:" + typeName(contT) + "." + f.Name()}, true
+}
 
 func isUnsigned(T types.Type) bool {
 	if T == nil {
@@ -803,6 +885,14 @@ func (c *Ctx) arith(op token.Token, l, r *Term, T types.Type, e ast.Expr) *Term 
 func (c *Ctx) evalCompositeLit(e *ast.CompositeLit) Value {
 	x := c.x
 	T := c.typeOf(e)
+	if x.isOpaqueNamed(T) {
+		// a literal of an opaque value type: its zero value, or a constant named by the literal's text
+		if len(e.Elts) == 0 {
+			return x.zeroValue(T)
+		}
+		c.evalArgs(e.Elts)
+		return Scalar(Var("lit!"+exprText(e), SRef), T)
+	}
 	if T == nil {
 		panic(engineErr("composite literal without type"))
 	}
@@ -902,9 +992,12 @@ func (c *Ctx) coerce(v Value, T types.Type) Value {
 		// static reference passed where a plain reference is expected (e.g. interface argument)
 		return Scalar(Var("&static."+v.Path, SRef), T)
 	}
-	if v.Kind == KStruct && k == KScalar {
-		// struct boxed into an interface: opaque
-		return Scalar(Fresh("boxed", SRef), T)
+	if v.Kind == KStruct && (k == KScalar || k == KStruct) && c.st != nil {
+		if k == KStruct {
+			return v
+		}
+		// struct boxed into an interface: a reference to a copy of the value
+		return c.alloc(v, T)
 	}
 	if v.Kind == KScalar && k == KScalar && v.S.Sort != x.scalarSort(T) {
 		if x.scalarSort(T) == SRef {
